@@ -8,5 +8,6 @@ CONSTANTS
   NGs = {1}
   MCs = {0}
   D13 = TRUE
+  M_AllMatches = TRUE
 INVARIANTS Verdict
 CHECK_DEADLOCK FALSE
